@@ -70,6 +70,7 @@ def run(ctx):
     def per_case(case, res):
         if res["status"] == "ok":
             fp.oracle_c02(ctx, case, res)
+            fp.oracle_io_covered(ctx, case, res)
     # graph stage (instructions + performer on abstract parameter classes) AND the whole pipeline (bit-exact output, WF.modelOK /
     # skeleton evaluated on the model's own output, NF membership) are compared with the Lean model on every case
     def gen(rng, i):
